@@ -202,6 +202,37 @@ def symbol_store(ctx, prog):
     ctx.floor(R, len(cs), 2, "call sites of parse_block_hash_from_bytes")
 
 
+def _ran_dry_flag(f, sy, l):
+    """is local `l` the loop result `did the loop stop at a character (true) / did the iterator run dry (false)`:
+    a named bool assigned only the constants true and false, false exactly on the None arm of an iterator's next()"""
+    ds = f.defs.get(l, [])
+    if f.locals[l]["ty"] != "bool" or len(ds) < 2 or any(k != "rv" for (_b, _i, k, _x) in ds):
+        return False
+    vals = {}
+    for (blk, _i, _k, x) in ds:
+        v = const_value(sy.rvalue(x))
+        if v not in (0, 1):
+            return False
+        vals.setdefault(v, []).append(blk)
+    if set(vals) != {0, 1}:
+        return False
+    for blk in vals[0]:
+        dry = False
+        for c in path_conds(f, sy, blk):
+            e = c[0]
+            if e[0] != "discr" or not ((c[1] == "in" and list(c[2]) == [0]) or (c[1] == "notin" and list(c[2]) == [1])):
+                continue
+            src = strip(e[1])
+            srcs = [src]
+            if src[0] == "local":
+                srcs = [strip(sy.call(x, b2)) if k2 == "call" else strip(sy.rvalue(x)) for (b2, _i2, k2, x) in f.defs.get(src[1], [])]
+            if srcs and all(z[0] == "call" and z[1].endswith("::next") for z in srcs):
+                dry = True
+        if not dry:
+            return False
+    return True
+
+
 def strict_lookahead(ctx, prog):
     """strict parser only: when the take(N)-bounded iterator runs dry (`!has_char`) the next raw byte is always re-fetched
     from bytes[index..]; the re-fetch must not depend on anything else (e.g. on how many symbols were stored)"""
@@ -236,7 +267,7 @@ def strict_lookahead(ctx, prog):
             if e[0] == "discr":
                 continue
             a = bool_atom(c)
-            if a and a[0] == "truth" and a[1][0] == "local" and a[1][2] == "has_char":
+            if a and a[0] == "truth" and a[1][0] == "local" and a[1][2] and _ran_dry_flag(f, sy, a[1][1]):
                 seen_has_char = seen_has_char or (a[2] is False)
                 continue
             if a and a[0] == "truth" and a[1][0] == "local":
@@ -295,16 +326,30 @@ def block_size_field(ctx, prog):
     NOT_COLON = r"^%s notin \[58\]$" % ch
     IDX0 = r"^Eq\(%s,0\)$" % idx
     IDXN0 = r"^Ne\(%s,0\)$" % idx
-    INRANGE_T = r"^local:is_block_size_in_range_\d+ is True$"
-    INRANGE_F = r"^local:is_block_size_in_range_\d+ is False$"
+    # roles: ACC = the accumulated value (first component of the Ok tuple); FLAG = the named bool assigned only true / false
+    acc_l = None
+    for i, j, s in f.stmts():
+        if s["s"] == "assign" and s["lhs"]["l"] == 0 and s["rv"]["r"] == "agg" and s["rv"]["kind"].get("variant") == "Ok":
+            v = strip(sy.operand(s["rv"]["ops"][0]))
+            if v[0] == "agg" and strip(v[2][0])[0] == "local":
+                acc_l = strip(v[2][0])[1]
+    flags = [l for l in range(f.argc + 1, len(f.locals)) if f.locals[l]["name"] and f.locals[l]["ty"] == "bool" and len(f.defs.get(l, [])) >= 2 and
+             all(k == "rv" and const_value(sy.rvalue(x)) in (0, 1) for (_b, _i, k, x) in f.defs[l])]
+    if acc_l is None or len(flags) != 1:
+        ctx.ob(R, "parse_block_size_from_bytes: accumulator and in-range flag identified", False, "accumulator %s, flags %s" % (acc_l, flags), f.loc())
+        return
+    ACC = r"local:%s_%d" % (_re.escape(f.locals[acc_l]["name"]), acc_l)
+    FLAG = r"local:%s_%d" % (_re.escape(f.locals[flags[0]]["name"]), flags[0])
+    INRANGE_T = r"^%s is True$" % FLAG
+    INRANGE_F = r"^%s is False$" % FLAG
     DIG_LO = r"^Le\((48=)?48,%s\)$" % ch
     DIG_HI = r"^Le\(%s,(57=)?57\)$" % ch
     want = {
         "UnexpectedCharacter": ([NOT_COLON], r"^%s$" % idx),
-        "BlockSizeStartsWithZero": ([DIG_LO, DIG_HI, INRANGE_T, r"^Eq\(local:block_size_\d+,0\)$"], r"^0$"),
+        "BlockSizeStartsWithZero": ([DIG_LO, DIG_HI, INRANGE_T, r"^Eq\(%s,0\)$" % ACC], r"^0$"),
         "BlockSizeIsEmpty": ([IS_COLON, IDX0], r"^0$"),
         "BlockSizeIsTooLarge": ([IS_COLON, IDXN0, INRANGE_F], r"^0$"),
-        "BlockSizeIsInvalid": ([IS_COLON, IDXN0, INRANGE_T, r"^internals::hash::block::block_size::is_valid\(local:block_size_\d+\) is False$"], r"^0$"),
+        "BlockSizeIsInvalid": ([IS_COLON, IDXN0, INRANGE_T, r"^internals::hash::block::block_size::is_valid\(%s\) is False$" % ACC], r"^0$"),
         "UnexpectedEndOfString": ([r"^discr\(<core::iter::Enumerate<I> as core::iter::Iterator>::next\(local:\w*\)\) in \[0\]$"], r"^core::slice::<impl \[T\]>::len\(param:bytes\)$"),
     }
     for kind, (rxs, posrx) in want.items():
@@ -320,13 +365,13 @@ def block_size_field(ctx, prog):
     # Ok outcome
     oks = G.blocks_returning_variant(f, sy, "Result::Ok")
     okc = conds_at(oks[0]) if oks else []
-    need = [IS_COLON, IDXN0, INRANGE_T, r"^internals::hash::block::block_size::is_valid\(local:block_size_\d+\) is True$"]
+    need = [IS_COLON, IDXN0, INRANGE_T, r"^internals::hash::block::block_size::is_valid\(%s\) is True$" % ACC]
     missing = [rx for rx in need if not any(_re.search(rx, c) for c in okc)]
     val = None
     for i, j, s in f.stmts():
         if s["s"] == "assign" and s["lhs"]["l"] == 0 and s["rv"]["r"] == "agg" and s["rv"]["kind"].get("variant") == "Ok":
             val = canon(strip(sy.operand(s["rv"]["ops"][0])))
-    okv = val is not None and _re.search(r"^Tuple\{local:block_size_\d+,Add\(%s,1\)\}$" % idx, val) is not None
+    okv = val is not None and _re.search(r"^Tuple\{%s,Add\(%s,1\)\}$" % (ACC, idx), val) is not None
     ctx.ob(R, "parse_block_size_from_bytes: Ok((block_size, index+1)) only at ':' with a non-empty, in-range, valid block size", bool(oks) and not missing and okv,
            ("value %s; conditions %s" % (val, okc))[:400], f.loc())
     # the accumulation: block_size = checked_mul(block_size, 10).and_then(|x| x.checked_add((ch - b'0') as u32))
